@@ -1,3 +1,5 @@
+pub mod c01;
+pub mod c02;
 pub mod c03;
 pub mod c04;
 pub mod c12;
@@ -14,6 +16,7 @@ pub mod apply;
 pub mod fixture;
 pub mod gen;
 pub mod refsql;
+pub mod render;
 pub mod spec;
 pub mod util;
 pub mod xspec;
@@ -22,6 +25,8 @@ use vcore::run::{parse_args, run, CheckFn};
 
 pub fn lookup(prop: &str) -> Option<CheckFn> {
     match prop {
+        "C01" => Some(c01::check),
+        "C02" => Some(c02::check),
         "C03" => Some(c03::check),
         "C04" => Some(c04::check),
         "C12" => Some(c12::check),
